@@ -463,24 +463,14 @@ FILTER_SAMPLES = [  # filter condition -> the same condition over the renamed de
 ]
 
 
-def interpret_filter_application(ctx, cond: str, rule_detections=None, draws=("x",)):
+def interpret_filter_application(ctx, cond: str, rule_detections=None, draws=("x",), rule_conditions=("sel",), should_apply=True, correlation=False):
     """Interpret SigmaFilter.apply_on_rule (sa.tabulate; nothing of pySigma runs) for a filter with condition ``cond`` whose
     detections are the plain names in it, applied to a stand-in rule (detections ``rule_detections``, condition 'sel').
     ``draws`` are the letters the stand-in random module returns for successive draws. Returns (rule stand-in, filter names)."""
-    from ..tabulate import Interp
+    from ..tabulate import Proxy, call_method
     import re as _re
     prog = ctx.prog
-    f = prog.func("sigma.filters.SigmaFilter.apply_on_rule")
-    cls = prog.cls("sigma.filters.SigmaFilter")
-    consts = {}
-    for name, sts in cls.assigns.items():
-        for st in sts:
-            v = getattr(st, "value", None)
-            if v is not None and name.startswith("_CONDITION"):
-                try:
-                    consts[name] = const_eval(prog, f.module, v)
-                except Exception:
-                    pass
+    FQ = "sigma.filters.SigmaFilter"
 
     class _Corr:
         pass
@@ -488,12 +478,12 @@ def interpret_filter_application(ctx, cond: str, rule_detections=None, draws=("x
     class _Det:
         def __init__(self):
             self.detections = dict(rule_detections or {"sel": "D(sel)"})
-            self.condition = ["sel"]
+            self.condition = list(rule_conditions)
 
         def __post_init__(self):
-            return None
+            self.reparsed = getattr(self, "reparsed", 0) + 1
 
-    class _Rule:
+    class _Rule(_Corr if correlation else object):
         def __init__(self):
             self.detection = _Det()
 
@@ -516,17 +506,12 @@ def interpret_filter_application(ctx, cond: str, rule_detections=None, draws=("x
     filt = type("F", (), {})()
     filt.detections = {n: f"D({n})" for n in names if "*" not in n}
     filt.condition = [cond]
-    me = type("S", (), {})()
-    me.filter = filt
-    me._should_apply_on_rule = lambda rule: True
-    for k, v in consts.items():
-        setattr(me, k, v)
     rule = _Rule()
-    env = {"self": me, "rule": rule, "SigmaCorrelationRule": _Corr, "random": _Rand, "re": _re,
+    env = {"SigmaCorrelationRule": _Corr, "random": _Rand, "re": _re,
            "string": type("string", (), {"ascii_lowercase": "abcdefghijklmnopqrstuvwxyz"}),
            "copy": type("copy", (), {"deepcopy": staticmethod(lambda x: x), "copy": staticmethod(lambda x: x)})}
-    it = Interp(env, max_steps=20000)
-    it.call(f.node.body)
+    me = Proxy(prog, FQ, env, {"filter": filt, "_should_apply_on_rule": (lambda rule_: should_apply), "source": None}, interp_kwargs={"max_steps": 20000})
+    rule.returned = call_method(prog, FQ, "apply_on_rule", me, env, rule, interp_kwargs={"max_steps": 20000})
     return rule, filt
 
 
